@@ -104,9 +104,12 @@ func (t *locTarget) do(c call) (string, error) {
 		_, err := t.loc.Query(ctx, js(c.Doc))
 		return "", err
 	case "event":
-		_, cond := t.loc.ProcessEvent(ctx, asMap(c.Doc))
+		fr, cond := t.loc.ProcessEvent(ctx, asMap(c.Doc))
 		if cond != nil {
 			return "", fmt.Errorf("%s", cond.Msg)
+		}
+		if fr != nil {
+			return fmt.Sprint(fr.Values), nil
 		}
 		return "", nil
 	case "listRules":
@@ -208,7 +211,10 @@ func (t *sysTarget) do(c call) (string, error) {
 		_, err := t.s.Query(ctx, "H", doc)
 		return "", err
 	case "event":
-		_, err := t.s.ProcessEvent(ctx, "H", doc)
+		fr, err := t.s.ProcessEvent(ctx, "H", doc)
+		if err == nil && fr != nil {
+			return fmt.Sprint(fr.Values), nil
+		}
 		return "", err
 	case "listRules":
 		_, err := t.s.ListRules(ctx, "H", true)
@@ -693,6 +699,63 @@ func hostileScripts(r *rep.Report, e rep.Env, via string) {
 	}
 }
 
+// refusedReplacement: a stored rule is overwritten by documents that are refused (by validation,
+// by the index, by the state's add hook).  A refused request changes nothing: the old rule is
+// still stored AND still fires.
+func refusedReplacement(r *rep.Report, via string) {
+	bad := []interface{}{
+		map[string]interface{}{"when": map[string]interface{}{"pattern": map[string]interface{}{"b": 2.0}}, "schedule": 5.0, "action": map[string]interface{}{"code": "2"}},
+		map[string]interface{}{"when": map[string]interface{}{"pattern": map[string]interface{}{"b": 2.0}}, "schedule": nil, "action": map[string]interface{}{"code": "2"}},
+		map[string]interface{}{"schedule": "not a schedule", "action": map[string]interface{}{"code": "2"}},
+		map[string]interface{}{"when": map[string]interface{}{"pattern": map[string]interface{}{"q": []interface{}{"x", 1.0}}}, "action": map[string]interface{}{"code": "2"}},
+		map[string]interface{}{"when": 5.0, "action": map[string]interface{}{"code": "2"}},
+		map[string]interface{}{"when": map[string]interface{}{"pattern": map[string]interface{}{"b": 2.0}}, "action": map[string]interface{}{"code": "2"}, "expires": "yesterday"},
+	}
+	for half := 0; half < 2; half++ {
+		kind := drv.Kinds[half]
+		for bi, doc := range bad {
+			var t target
+			switch via {
+			case "loc":
+				t = newLocTarget(kind)
+			case "sys":
+				t = newSysTarget(kind == "linear")
+			default:
+				t = newHTTPTarget(kind == "linear")
+			}
+			good := map[string]interface{}{"when": map[string]interface{}{"pattern": map[string]interface{}{"old": "rule"}}, "action": map[string]interface{}{"code": "'old rule fired'"}}
+			if _, err := t.do(call{Via: via, State: kind, Op: "addRule", Id: "keep", Doc: good}); err != nil {
+				r.Violate("", "cannot add an ordinary rule: "+err.Error(), nil)
+				continue
+			}
+			c := call{Via: via, State: kind, Op: "addRule", Id: "keep", Doc: doc}
+			r.Journal(c)
+			var derr error
+			returned, pan := drv.Guard(callLimit, func() { _, derr = t.do(c) })
+			r.Case(true, fmt.Sprint("refused-replacement", via, kind, bi))
+			r.Count("refused_replacements", 1)
+			wit := rep.J{"call": c, "error": drv.ErrStr(derr)}
+			if !returned || pan != "" {
+				r.Violate("", "replacing a rule by a malformed one hangs or panics: "+firstLine(pan), wit)
+				return
+			}
+			if derr == nil {
+				continue // accepted: then it IS the rule now
+			}
+			var out string
+			ret2, pan2 := drv.Guard(callLimit, func() { out, _ = t.do(call{Via: via, State: kind, Op: "event", Doc: map[string]interface{}{"old": "rule"}}) })
+			wit["event_result"] = out
+			if !ret2 || pan2 != "" {
+				r.Violate("", "after a refused replacement an event for the old rule hangs or panics: "+firstLine(pan2), wit)
+				return
+			}
+			if !strings.Contains(out, "old rule fired") {
+				r.Violate("", "a refused replacement of a rule was not without effect: the old rule no longer fires", wit)
+			}
+		}
+	}
+}
+
 func hquery(g *gen.Gen, depth int) interface{} {
 	if depth <= 0 || g.Intn(3) == 0 {
 		switch g.Intn(4) {
@@ -746,6 +809,7 @@ func main() {
 			r.WritePartial() // a stack overflow in the next part kills the process; keep what there is
 			storedVarStrings(r, e, e.Stage)
 			r.WritePartial()
+			refusedReplacement(r, e.Stage)
 			hostileScripts(r, e, e.Stage)
 		}
 		campaign(r, e, e.Stage)
